@@ -81,7 +81,7 @@ def _build_locked(name, source, flags, outdir, out):
         return out, None
     os.makedirs(outdir, exist_ok=True)
     tmp = "%s.tmp.%d.%d" % (out, os.getpid(), threading.get_ident())
-    cmd = ["g++"] + flags + [os.path.join(HARNESS, source), "-o", tmp]
+    cmd = ["g++"] + [f for f in flags if not f.startswith("-l")] + [os.path.join(HARNESS, source), "-o", tmp] + [f for f in flags if f.startswith("-l")]
     t0 = time.time()
     p = subprocess.run(cmd, stdout=subprocess.PIPE, stderr=subprocess.STDOUT, text=True)
     if p.returncode != 0:
